@@ -55,7 +55,7 @@ class Ev:
         ev = self
         names = set(MOMENTS)
         for f in self.F.functions.values():
-            if f.relfile == self.file and (f.cls or "").endswith("cache_t"):
+            if (f.relfile == self.file and (f.cls or "").endswith("cache_t")) or f.cls == "nano::wlearner::accumulator_t":
                 names.add(f.name)
 
         def mk(name):
@@ -74,6 +74,9 @@ class Ev:
                     b_ = vals_[0] if vals_ else sp.Integer(0)
                     return sym("%s_%s_%s" % (tag, name, b_))
                 cands = ev.functions(name, len(a), "cache_t")
+                if not cands:
+                    # helpers inherited from the accumulator (rss_zero, rss_constant, fit_constant)
+                    cands = [f for f in ev.F.functions.values() if f.qn == "nano::wlearner::accumulator_t::" + name and len(f.params) == len(a) and f.is_const]
                 if cands and o0["k"] in ("this", "ref"):
                     return ev.conv(cands[0], vals_)
                 raise OutOfFragment("member call %s" % name)
@@ -243,8 +246,17 @@ def rule_formulas(F, R):
         R.check(z1 and z2, "R-C10-1", "affine coefficients", fa.loc(), "(w, b) is the least-squares solution", "affine (w, b) is not the least-squares solution: %s %s" % (w1, w2))
         scf = ev.functions("score", 1, "cache_t")[0]
         rv = [v for v in scf.nodes() if v["k"] == "var" and v["n"] == "rss" and v.get("c")]
-        okr = len(rv) == 1 and pp(rv[0]["c"][0]) == "(rss_affine() + rss_zero(bin_missed))"
-        R.check(okr, "R-C10-1", "affine rss total", scf.loc(), "rss = rss_affine() + rss_zero(missing bin)", "affine total rss is %s" % (pp(rv[0]["c"][0]) if rv else "?"))
+        if len(rv) != 1:
+            raise OutOfFragment("the scored rss of the affine learner was not found")
+        # total = RSS of the model the learner predicts: w*x + b on present values (bin 0), zero on missing ones (bin 1)
+        MISS = [(sym("h1"), sym("u1")), (sym("h2"), sym("u2"))]
+        sub2 = dict(moments_of("acc", S, 0))
+        sub2.update(moments_of("acc", MISS, 1))
+        tot = evs.expr(scf, rv[0]["c"][0]).subs(sub2)
+        direct2 = sum((g + W * v + B) ** 2 for g, v in S) + sum(g ** 2 for g, v in MISS)
+        z, w = is0(tot - direct2, R)
+        R.check(z, "R-C10-1", "affine rss total", scf.loc(rv[0]), "scored rss = sum_present (g + w x + b)^2 + sum_missing g^2 (missing values are predicted as zero)",
+                "the affine score is not the RSS of what the learner predicts (w*x + b on present values, 0 on missing ones): %s" % w)
     except (OutOfFragment, IndexError) as e:
         R.incomplete("R-C10-1", "affine", file + ":1", "cannot evaluate: %s" % e)
     # ---- tables
